@@ -32,18 +32,18 @@ pub fn exec(tag: i64, inp: &[i64]) -> Vec<i64> {
                 let m = ControlChange14BitMessage::new(c, n, v);
                 let r: [RawShortMessage; 2] = m.to_short_messages();
                 let s: [StructuredShortMessage; 2] = m.into();
-                let mut o = vec![
+                let g = [
                     m.channel().get() as i64,
                     m.msb_controller_number().get() as i64,
                     m.lsb_controller_number().get() as i64,
                     m.value().get() as i64,
                 ];
-                let _ = &mut o;
-                (o, r, s)
+                (g, r, s)
             });
             match r {
                 None => vec![PANIC],
-                Some((mut o, r, s)) => {
+                Some((g, r, s)) => {
+                    let mut o = g.to_vec();
                     o.extend_from_slice(&bytes_of(&r[0]));
                     o.extend_from_slice(&bytes_of(&r[1]));
                     o.extend_from_slice(&bytes_of(&s[0]));
